@@ -22,6 +22,7 @@ type poolStr struct {
 	Compound bool // contains an AND/OR operator token (meaningful only when valid)
 	Valid    bool
 	Origin   string
+	Twin     int // index+1 of the pool string this one is a case-folded twin of
 }
 
 type C04Case struct {
@@ -220,6 +221,17 @@ func buildPool(c *Ctx, n int) []poolStr {
 			add(id, false, "listed-id")
 		}
 	}
+	// case-folded twins: the same text in another letter case. Listed ids are case-insensitive, but operators and the
+	// LicenseRef-/DocumentRef- prefixes are not, so a twin often differs in validity from its original.
+	base := len(pool)
+	for i := 0; i < base; i += 3 {
+		p := pool[i]
+		for _, tw := range []string{strings.ToLower(p.S), strings.ToUpper(p.S)} {
+			if tw != p.S {
+				pool = append(pool, poolStr{S: tw, Compound: p.Compound, Origin: "case-twin", Twin: i + 1})
+			}
+		}
+	}
 	for i := range pool {
 		pool[i].Valid = c.Valid(pool[i].S)
 		c.CountIf(pool[i].Valid, "pool_valid")
@@ -245,6 +257,7 @@ func runC04(c *Ctx, phase string) {
 	c.Floor("extract_valid", 500)
 	c.Floor("extract_invalid", 500)
 	c.Floor("pool_valid_compound", 100)
+	c.Floor("validate_lists_with_case_twins", 1000)
 
 	pool := buildPool(c, nPool)
 	var valid, invalid, singles, compounds []int
@@ -258,6 +271,12 @@ func runC04(c *Ctx, phase string) {
 		default:
 			valid = append(valid, i)
 			singles = append(singles, i)
+		}
+	}
+	var twins []int
+	for i, p := range pool {
+		if p.Twin > 0 {
+			twins = append(twins, i)
 		}
 	}
 	if len(singles) == 0 || len(invalid) == 0 || len(compounds) == 0 {
@@ -285,6 +304,15 @@ func runC04(c *Ctx, phase string) {
 					list[j] = pool[invalid[r.Intn(len(invalid))]].S
 				default:
 					list[j] = pool[r.Intn(len(pool))].S
+				}
+			}
+			if n >= 2 && r.Chance(1, 3) && len(twins) > 0 {
+				// a string and its case-folded twin in the same list, in either order
+				t := twins[r.Intn(len(twins))]
+				a, b := r.Intn(n), r.Intn(n)
+				if a != b {
+					list[a], list[b] = pool[t].S, pool[pool[t].Twin-1].S
+					c.Inc("validate_lists_with_case_twins")
 				}
 			}
 			cs := C04Case{Kind: "validate", List: ev.QSs(list), NilList: n == 0 && r.Chance(1, 2)}
